@@ -24,7 +24,7 @@ EMBED = [  # integer affine maps (x, y) -> R^3 with integer area scale
     (lambda x, y: (x + 2 * y + 1, 2 * x + y, 2 * x - 2 * y - 3), 9),
     # long narrow faces (thin radial shells): corners a degree or two apart as seen from the face centre
     (lambda x, y: (40 * x, y, 2), 40),
-    (lambda x, y: (3, 2 * y, 50 * x), 100),
+    (lambda x, y: (3, y, 50 * x), 50),          # (area scale x twice the lattice area x 1e6 must stay below 2^31 for TLC)
 ]
 
 
